@@ -62,6 +62,15 @@ size_t vf_strlen(const char *s)
       return c13_reg_n[k];
     }
   }
+#ifdef VERIF_CBMC
+  /* a pointer into a registered string (s + j): the scan cannot need more steps than the string is long */
+  for (k = 0; k < C13_NREG; ++k) {
+    if (k < c13_nreg && c13_reg_s[k] != 0 && __CPROVER_POINTER_OBJECT(s) == __CPROVER_POINTER_OBJECT(c13_reg_s[k])) {
+      for (i = 0; i < 16; ++i) { if (i > c13_reg_n[k]) break; if (!s[i]) return i; }
+      CHECK(0, "harness: registered string is NUL-terminated");
+    }
+  }
+#endif
   while (s[n]) ++n;
   return n;
 }
